@@ -2,8 +2,8 @@ CONSTANTS
   N = 3
   MaxCmd = 1
   MaxVar = 1
-  NCtx = 2
-  Nesting = FALSE
+  NCtx = 0
+  Nesting = TRUE
   HookKinds = {"none"}
 SPECIFICATION Spec
 INVARIANTS CommandsAfterDependencies StopsAtFailure FinalOK RunOnlyWhileStageRunning UpBeforeUse DownAfterAll OneUpAtATime NothingRunsAtReturn
